@@ -499,6 +499,74 @@ theorem stacked_wraps (f : Func) (wf : WfFunc f) (o : Opts) (n : Nat) :
     simp only [wrapsN, hw]
     exact hw'
 
+/-! ## calls through a stack of decorators -/
+
+/-- every function of the list is a plain `wraps` of something with `f`'s own signature -/
+def PlainOver (f : Func) (ws : List Func) : Prop :=
+  ∀ w ∈ ws, ∃ inner o ident, updateWrapper inner [] [] o ident = .ok w ∧ sigOf inner = sigOf f
+
+/-- a call the innermost function accepts travels down any chain of plain wrappers (each user
+    wrapper calling the next function with what it received) and arrives with the same bound arguments -/
+theorem chain_forwarding (f : Func) (ws : List Func) (hws : PlainOver f ws) (c : Call) (b : Bound)
+    (hb : bind (sigOf f) c = some b) :
+    ∃ c', travel ws c = some c' ∧ bind (sigOf f) c' = some b := by
+  induction ws generalizing c with
+  | nil => exact ⟨c, rfl, hb⟩
+  | cons w r ih =>
+    obtain ⟨inner, o, ident, hw, hs⟩ := hws w (by simp)
+    obtain ⟨c1, h1, h2⟩ := forwarding inner o ident w hw c b (hs ▸ hb)
+    rw [hs] at h2
+    obtain ⟨c', h3, h4⟩ := ih (fun x hx => hws x (by simp [hx])) c1 h2
+    exact ⟨c', by simp only [travel, h1]; exact h3, h4⟩
+
+/-- every level of a stack built by `stackUp` is a plain `wraps` of a well-formed function with `f`'s own signature -/
+theorem stackUp_plainOver (f : Func) (o : Opts) (n : Nat) (ws : List Func)
+    (hws : PlainOver f ws) (hwf : ∀ w ∈ ws, WfFunc w ∧ sigOf w = sigOf f) (res : List Func)
+    (h : stackUp o n ws = .ok res) : PlainOver f res ∧ ∀ w ∈ res, WfFunc w ∧ sigOf w = sigOf f := by
+  induction n generalizing ws with
+  | zero => simp only [stackUp, Except.ok.injEq] at h; subst h; exact ⟨hws, hwf⟩
+  | succ n ih =>
+    cases ws with
+    | nil => simp only [stackUp, Except.ok.injEq] at h; subst h; exact ⟨hws, hwf⟩
+    | cons w r =>
+      obtain ⟨wfw, hsw⟩ := hwf w (by simp)
+      obtain ⟨w', hw', hs', _⟩ := sig_preserved w wfw o (w.ident + 1)
+      have hw'' : updateWrapper w [] [] o = .ok w' := hw'
+      simp only [stackUp, hw''] at h
+      refine ih (w' :: w :: r) ?_ ?_ h
+      · intro x hx
+        simp only [List.mem_cons] at hx
+        rcases hx with rfl | hx
+        · exact ⟨w, o, w.ident + 1, hw', hsw⟩
+        · exact hws x (by simpa using hx)
+      · intro x hx
+        simp only [List.mem_cons] at hx
+        rcases hx with rfl | hx
+        · exact ⟨wrapper_wellformed w wfw [] [] o _ _ hw', hs'.trans hsw⟩
+        · exact hwf x (by simpa using hx)
+
+/-- a stack of `n + 1` plain `wraps` decorators: every call the innermost function accepts
+    travels down the whole stack - each user wrapper calling the next function with what it
+    received - and reaches the innermost function with the same bound arguments, defaults included;
+    and the outermost function has the innermost one's own signature, so it accepts exactly those calls -/
+theorem stacked_forwarding (f : Func) (wf : WfFunc f) (o : Opts) (n : Nat) (w1 : Func) (ws : List Func)
+    (h1 : updateWrapper f [] [] o = .ok w1) (h : stackUp o n [w1] = .ok ws) :
+    (∀ w ∈ ws, sigOf w = sigOf f) ∧
+    ∀ (c : Call) (b : Bound), bind (sigOf f) c = some b →
+      ∃ c', travel ws c = some c' ∧ bind (sigOf f) c' = some b := by
+  obtain ⟨w1', hw1, hs1, _⟩ := sig_preserved f wf o (f.ident + 1)
+  have e : w1' = w1 := by
+    have : updateWrapper f [] [] o = .ok w1' := hw1
+    rw [h1] at this; exact (Except.ok.inj this).symm
+  subst e
+  have hp : PlainOver f [w1'] := by
+    intro x hx; simp at hx; subst hx; exact ⟨f, o, f.ident + 1, hw1, rfl⟩
+  have hq : ∀ w ∈ [w1'], WfFunc w ∧ sigOf w = sigOf f := by
+    intro x hx; simp at hx; subst hx
+    exact ⟨wrapper_wellformed f wf [] [] o _ _ hw1, hs1⟩
+  obtain ⟨r1, r2⟩ := stackUp_plainOver f o n [w1'] hp hq ws h
+  exact ⟨fun w hw => (r2 w hw).2, fun c b hb => chain_forwarding f ws r1 c b hb⟩
+
 /-! ## any history of `FunctionBuilder.remove_arg` / `add_arg` calls -/
 
 /-- whatever sequence of `remove_arg` / `add_arg(…[, kwonly=True])` calls is made on
@@ -700,6 +768,9 @@ example : (buildHistory exF [.remove 2, .add 6 none false, .add 8 (some 42) true
     (fun w => sigOf w) = some ⟨[(1, none), (6, none), (3, some 13)], some 7, [(4, none), (8, some 42)], some 9⟩ := by
   decide
 example : (wrapsN exF {} 3).toOption.map (fun w => (sigOf w, w.wrapped)) = some (sigOf exF, some 3) := by decide
+example : (match wraps exF with
+    | .ok w1 => (stackUp {} 2 [w1]).toOption.bind (fun ws => travel ws ⟨[101], [(4, 110), (8, 111)]⟩)
+    | .error _ => none) = some ⟨[101, 12, 13], [(4, 110), (5, 25), (8, 111)]⟩ := by decide
 example : errOf (updateWrapper exF [] [(7, none)]) = some .syntaxError := by decide
 -- p4 (annotated 34) injected and expected again: the name is left open (`readdedW`); p1 keeps 31, p6 is new
 example : readdedW [4] [(4, some 44), (6, none)] = [4] := by decide
